@@ -1,3 +1,5 @@
+import FrappyProofs.Lemmas.Config
 import FrappyProofs.Lemmas.Logging
 import FrappyProofs.Lemmas.Rotate
+import FrappyProofs.Props.C10
 import FrappyProofs.Props.C20
